@@ -216,3 +216,19 @@ Fixpoint parse_path_fuel (fuel : nat) (b : list N) : option (list seg) :=
     end
   end.
 Definition parse_path (b : list N) : option (list seg) := parse_path_fuel (length b) b.
+
+(* ------------------------------------------------------------ where BGP allows a route to go *)
+(* RFC 4271 9.2 (no echo, iBGP-learned routes are not passed to iBGP peers),
+   RFC 4456 6 (a reflector passes client routes to everybody and non-client routes
+   to clients), RFC 7947 (route-server clients form a closed group).  [cid] is the
+   cluster id of the session to the receiver ([None]: the speaker does not reflect
+   on that session). *)
+Definition may_send (s : source) (dest : role) (raddr : ipaddr) (cid : option N) : Prop :=
+  ~ learned_from s raddr
+  /\ (src_role s = RsClient <-> dest = RsClient)
+  /\ (ibgp_peer_source s -> role_is_ibgp dest = true ->
+        cid <> None /\ (src_role s = IbgpRrClient \/ dest = IbgpRrClient)).
+
+(* Source.role agrees with the AS numbers of the session (session set-up, C07/C16) *)
+Definition wf_source (s : source) : Prop :=
+  forall ps, s = SrcPeer ps -> (ps_rasn ps = ps_lasn ps <-> role_is_ibgp (ps_role ps) = true).
